@@ -20,6 +20,8 @@ type PropFunc struct {
 	Key    string   `json:"key"`              // e.g. "lexer.lexKeySep"
 	Kinds  []string `json:"kinds,omitempty"`  // obligation kinds that count for this property (default: all)
 	Labels []string `json:"labels,omitempty"` // for post obligations: only clauses with these labels (default: all)
+	Include []string `json:"include,omitempty"` // if set: only obligations whose name contains one of these substrings
+	Exclude []string `json:"exclude,omitempty"` // obligations whose name contains one of these substrings belong to another property
 	Note   string   `json:"note,omitempty"`
 }
 
@@ -28,6 +30,8 @@ type PropSpec struct {
 	Packages    []string   `json:"packages"`
 	Functions   []PropFunc `json:"functions"`
 	Lemmas      []string   `json:"lemmas,omitempty"`
+	Include     []string   `json:"include,omitempty"` // property-wide: only obligations whose name contains one of these (bind/engine always count)
+	Exclude     []string   `json:"exclude,omitempty"` // property-wide: obligations that belong to another property's claim
 	Assumptions []string   `json:"assumptions"`
 	NotDecided  []string   `json:"not_decided,omitempty"`
 	Bounded     []string   `json:"bounded,omitempty"`
@@ -97,6 +101,7 @@ func cmdCheck(args []string) {
 	tier := fs.String("tier", "quick", "quick|thorough")
 	verbose := fs.Bool("v", false, "verbose")
 	noEvidence := fs.Bool("no-evidence", false, "do not write the evidence file")
+	list := fs.Bool("list", false, "print the names of the obligations that count for the property")
 	fs.Parse(args)
 	if *prop == "" {
 		usage()
@@ -115,6 +120,11 @@ func cmdCheck(args []string) {
 		agree = 2
 	}
 	res := runProperty(ps, *repo, nil, RunOpts{Timeout: timeout, Agree: agree, Verbose: *verbose})
+	if *list {
+		for _, o := range res.Counted {
+			fmt.Println("OBL", o.Kind, o.Name)
+		}
+	}
 	exit := reportProperty(ps, res, *tier, seed, t0, !*noEvidence, *repo)
 	if *tier == "thorough" && exit == 0 {
 		// must-fail corpus: every deliberate property-breaking edit must make an obligation fail
@@ -166,7 +176,7 @@ func runProperty(ps *PropSpec, repo string, overlay map[string][]byte, opts RunO
 				all = append(all, o)
 				continue
 			}
-			if !kindCounts(pf, o) {
+			if !kindCounts(pf, o) || !nameFilter(ps.Include, ps.Exclude, o) {
 				continue
 			}
 			res.Counted = append(res.Counted, o)
@@ -183,7 +193,30 @@ func runProperty(ps *PropSpec, repo string, overlay map[string][]byte, opts RunO
 	return res
 }
 
+func nameFilter(include, exclude []string, o *Obligation) bool {
+	if o.Kind == "bind" || o.Kind == "engine" {
+		return true
+	}
+	for _, x := range exclude {
+		if strings.Contains(o.Name, x) {
+			return false
+		}
+	}
+	if len(include) == 0 {
+		return true
+	}
+	for _, x := range include {
+		if strings.Contains(o.Name, x) {
+			return true
+		}
+	}
+	return false
+}
+
 func kindCounts(pf PropFunc, o *Obligation) bool {
+	if !nameFilter(pf.Include, pf.Exclude, o) {
+		return false
+	}
 	if len(pf.Kinds) > 0 && !contains(pf.Kinds, o.Kind) && o.Kind != "bind" && o.Kind != "engine" {
 		return false
 	}
